@@ -24,6 +24,11 @@ PROGRAMS = {
     "big600": ["        NAM big\n", "        ORG $4000\n", "ENTRY   LDA #$41\n"] + ["        FDB $%04X,$%04X,$%04X,$%04X\n" % (4 * k + 0x1001, 4 * k + 0x2002, 4 * k + 0x3003, 4 * k + 0x4004) for k in range(75)] +
               ["        RTS\n", "        END ENTRY\n"],
     "exact255": ["        NAM edge\n", "        ORG $5000\n"] + ["        FCB %s\n" % ",".join(str((17 * k + j) % 256) for j in range(15)) for k in range(17)],
+    # images that need more than 22 / almost all 28 granules a 64K program can take (the allocation runs far along the fill order)
+    "big51k": ["        NAM huge\n", "        ORG $1000\n", "GO      LDA #$41\n", "        RMB 50700\n", "        FDB $A55A,$1234\n", "        RTS\n",
+               "        END GO\n"],
+    "big60k": ["        NAM most\n", "        ORG $0800\n", "GO      LDX #$BEEF\n", "        RMB 30000\n", "        FCB 1,2,3\n", "        RMB 30400\n",
+               "        FDB $5AA5\n", "        RTS\n"],
     "bad": ["        ORG $0E00\n", "        LDA #$41\n", "        FOO 12\n"],
     "undefined": ["        ORG $0E00\n", "        JMP NOWHERE\n"],
 }
@@ -113,6 +118,8 @@ class CliAssembler:
                 if prog == "named" and len(combo) == 3:
                     continue
                 out.append({"id": "asm/combined/%s/%s" % ("+".join(combo), prog), "k": "all3", "combo": combo, "prog": prog})
+        out.append({"id": "asm/combined/bin+cas+dsk/big51k", "k": "all3", "combo": ("bin", "cas", "dsk"), "prog": "big51k"})
+        out.append({"id": "asm/combined/cas+dsk/big60k", "k": "all3", "combo": ("cas", "dsk"), "prog": "big60k"})
         out.append({"id": "asm/sequence/cas-append-twice", "k": "seq", "t": "cas"})
         out.append({"id": "asm/sequence/dsk-append-twice", "k": "seq", "t": "dsk"})
         return out
@@ -437,6 +444,11 @@ class CliFileUtil:
             # complete, and is afterwards recognised as what it is (refused as a cassette target, extended as a disk target)
             for fsn in ("boundary", "kinds"):
                 out.append({"id": "fu/sequence/%s/%s" % (src, fsn), "k": "sequence", "src": src, "set": fsn})
+            # several target switches in ONE invocation: every target gets the files as they are in the source (the same
+            # CoCoFile objects are handed to each container in turn)
+            for combo in (("cas", "dsk"), ("dsk", "bin"), ("cas", "bin"), ("cas", "dsk", "bin")):
+                for fsn in (("one", "lower") if "bin" in combo else ("one", "kinds")):
+                    out.append({"id": "fu/multi-target/%s/%s/%s" % (src, "+".join(combo), fsn), "k": "multi", "src": src, "combo": combo, "set": fsn})
         out.append({"id": "fu/missing-host", "k": "missing"})
         return out
 
@@ -623,6 +635,34 @@ class CliFileUtil:
             return
         want = read_image(dst, before) + [(n, ft, la, ea, d) for (n, e, ft, dt, la, ea, d) in files]
         self._same_files(env, got, want, "C10:complete-image", sig, ("C10", "C16"))
+
+    def k_multi(self, env, cell, native):
+        src, combo, fsn = cell["src"], cell["combo"], cell["set"]
+        files = FILESETS[fsn]
+        host = "host." + src
+        args = {"host_filename": host}
+        for t in combo:
+            args["to_" + t] = "out." + t
+        r = run_cli(env, "file_util", args, {host: make_image(src, files)})
+        sig = lambda w: (lambda: "fu/multi-target/%s/%s/%s:%s" % (src, "+".join(combo), fsn, w)) if native else None
+        if not self._gate(env, r, sig):
+            return
+        want = [(n, ft, la, ea, d) for (n, e, ft, dt, la, ea, d) in files]
+        for t in combo:
+            after = r.fs.get("out." + t)
+            if after is None:
+                env.fail("C16:converted", ("C16",), sig("%s:no-target-written:exit=%s" % (t, r.exit)))
+                continue
+            if t == "bin":
+                env.ensure("C16:to-bin-bytes", list(after) == list(files[0][6]), ("C16",), sig("bin:bytes-differ:%d,want=%d" % (len(after), len(files[0][6]))))
+                continue
+            try:
+                got = read_image(t, after)
+            except (tape.TapeFormatError, db.DiskFormatError) as e:
+                import re
+                env.fail("C16:converted", ("C16",), sig("%s:target-malformed:%s" % (t, re.sub(r"\d+", "N", str(e)))))
+                continue
+            self._same_files(env, got, want, "C16:converted", lambda w, t=t: sig("%s:%s" % (t, w)))
 
     def k_sequence(self, env, cell, native):
         src, fsn = cell["src"], cell["set"]
